@@ -149,7 +149,7 @@ def _api_scenario(rng):
         t = rng.randrange(50, 2400 * n) | 1
         if t % 2400 in (0, 240):
             t += 2
-        sc["faults"] = [(t, "eof")]                                         # the console closes once: the link does not stay up
+        sc["faults"] = [(t, rng.choice(["eof", "eof", "reset", "timeout", "unreach"]))]   # the link is lost once: it does not stay up
         if rng.random() < 0.5:
             sc["faults"] = [(t - 1, "refuse"), (t, "eof"), (t + rng.choice([9, 333, 2705]), "accept")]
     return sc
